@@ -255,8 +255,19 @@ pub fn run(o: &Opts) {
     for (id, pat, glob) in [("no-log", "console.log($A)", "src/**"), ("no-var", "var $A = $B", "test/**"), ("no-new", "new $C($$$A)", "lib/**"), ("no-num", "foo(1)", "src/**"), ("no-str", "bar('x')", "test/**"), ("no-tpl", "`t`", "lib/**")] {
       std::fs::write(dir.join(format!("rules/{id}.yml")), format!("id: {id}\nlanguage: TypeScript\nseverity: warning\nmessage: m\nrule:\n  pattern: {}\nfiles: ['{glob}']\n", serde_json::to_string(pat).unwrap())).unwrap();
     }
-    let body = "console.log(1)\nvar a = 2\nnew Foo(3)\nfoo(1)\nbar('x')\nlet t = `t`\n";
+    // one rule without globs (TypeScript) next to languages that ONLY path-scoped rules cover (JSON, YAML): the walker
+    // must still visit their files
+    std::fs::write(dir.join("rules/any-debugger.yml"), "id: any-debugger\nlanguage: TypeScript\nseverity: warning\nmessage: m\nrule:\n  pattern: debugger\n").unwrap();
+    std::fs::write(dir.join("rules/json-name.yml"), "id: json-name\nlanguage: json\nseverity: warning\nmessage: m\nrule:\n  kind: pair\n  has:\n    field: key\n    regex: name\nfiles: ['cfg/**', 'package.json']\n").unwrap();
+    std::fs::write(dir.join("rules/yaml-image.yml"), "id: yaml-image\nlanguage: yaml\nseverity: error\nmessage: m\nrule:\n  kind: block_mapping_pair\n  regex: '^image'\nfiles: ['deploy/**']\n").unwrap();
+    let body = "console.log(1)\nvar a = 2\nnew Foo(3)\nfoo(1)\nbar('x')\nlet t = `t`\ndebugger\n";
     let mut files = vec![];
+    for (rel, text) in [("cfg/a.json", "{\"name\": \"a\", \"v\": 1}\n"), ("package.json", "{\"name\": \"pkg\"}\n"), ("other/b.json", "{\"name\": \"no rule here\"}\n"), ("deploy/prod/web.yml", "image: web:1\nreplicas: 2\n"), ("deploy/web.yml", "image: web:2\n"), ("other/c.yml", "image: none\n")] {
+      let p = dir.join(rel);
+      std::fs::create_dir_all(p.parent().unwrap()).unwrap();
+      std::fs::write(&p, text).unwrap();
+      files.push(rel.to_string());
+    }
     for d in ["src", "test", "lib", "other"] {
       for i in 0..4 {
         let rel = format!("{d}/f{i}.ts");
